@@ -769,7 +769,11 @@ func (e *Engine) loadOverlay() error {
 	var files []string
 	for _, l := range strings.Split(string(data), "\n") {
 		if strings.HasPrefix(l, "+++ b/") {
-			files = append(files, strings.TrimSpace(strings.TrimPrefix(l, "+++ b/")))
+			f := strings.TrimPrefix(l, "+++ b/")
+			if k := strings.IndexByte(f, '\t'); k >= 0 {
+				f = f[:k]
+			}
+			files = append(files, strings.TrimSpace(f))
 		}
 	}
 	for _, f := range files {
